@@ -100,16 +100,19 @@ class C20(Prop):
             bb = pm.stdout
             lead_info = None
             if lead:
-                k = rng.choice([2400, 48000, 96000])
-                sig = rng.choice([30, 300, 3000])
-                lseed = rng.randrange(10 ** 6)
+                if isinstance(lead, dict):
+                    k, sig, lseed = lead["samples"], lead["sigma_int16"], lead["seed"]
+                else:
+                    k = rng.choice([2400, 48000, 96000])
+                    sig = rng.choice([30, 300, 3000])
+                    lseed = rng.randrange(10 ** 6)
                 lr = __import__("random").Random(lseed)
                 lead_info = {"samples": k, "sigma_int16": sig, "seed": lseed, "how": "random.Random(seed).gauss(0, sigma) per sample, clipped to int16, little endian, in front of the baseband"}
                 bb = b"".join(struct.pack("<h", max(-32768, min(32767, int(lr.gauss(0, sig))))) for _ in range(k)) + bb
             cmd_d = [dem, "-l"] + (["-i"] if inv else [])
             pd = subprocess.run(cmd_d, input=bb, stdout=subprocess.PIPE, stderr=subprocess.PIPE, timeout=600)
             err = pd.stderr.decode(errors="replace")
-            key = (src, dst, can, inv, lead, akind, secs, tag)
+            key = (src, dst, can, inv, str(lead), akind, secs, tag)
             ctx.count(key, nontrivial=True)
             ctx.stat(f"pipeline[{tag}]:runs")
             frames_tx = (len(audio) + 319) // 320 + 1          # audio blocks + end-of-stream frame
@@ -144,6 +147,25 @@ class C20(Prop):
             if "EOS" not in err:
                 probs.append("end of stream not flagged")
             ctx.stat(f"pipeline[{tag}]:frames-missing", max(0, frames_tx - len(pd.stdout) // 640))
+            if probs and akind != "noise" and not pm.returncode and not pd.returncode and len(pd.stdout) % 640 == 0 and (not m or len(pd.stdout) // 640 < frames_tx - 400):
+                # receiver deaf to a transmission whose voice payload repeats in every frame: is it the known open finding (false sync lock)?
+                # differential diagnosis: same callsigns, CAN, polarity and lead-in with noise audio of the same length
+                raw2 = b"".join(struct.pack("<h", rng.randrange(-8000, 8000)) for _ in range(n))
+                bb2 = subprocess.run(cmd_m, input=raw2, stdout=subprocess.PIPE, stderr=subprocess.PIPE, timeout=600).stdout
+                if lead_info:
+                    lr = __import__("random").Random(lead_info["seed"])
+                    bb2 = b"".join(struct.pack("<h", max(-32768, min(32767, int(lr.gauss(0, lead_info["sigma_int16"]))))) for _ in range(lead_info["samples"])) + bb2
+                pd2 = subprocess.run(cmd_d, input=bb2, stdout=subprocess.PIPE, stderr=subprocess.PIPE, timeout=600)
+                e2 = pd2.stderr.decode(errors="replace")
+                if pd2.returncode == 0 and f"SRC: {src}," in e2 and "EOS" in e2 and len(pd2.stdout) // 640 >= frames_tx - 400:
+                    bbp = os.path.join(core.VERIF, "evidence", "replay", f"C20-{abs(hash(key)) % 10**8}.audio.raw")
+                    os.makedirs(os.path.dirname(bbp), exist_ok=True)
+                    open(bbp, "wb").write(raw)
+                    ctx.stat("pipeline:known-finding-false-sync-lock")
+                    ctx.violate("pipeline:false-sync-lock:repeating-payload",
+                                f"m17-mod {' '.join(cmd_m[1:])} | m17-demod {' '.join(cmd_d[1:])} ({akind} audio, {secs} s): " + "; ".join(probs[:3]) + " — while noise audio with the same parameters is received",
+                                {"stream": "pipeline", "mod_cmd": cmd_m, "demod_cmd": cmd_d, "audio_file": bbp, "lead": lead_info, "problems": probs})
+                    probs = []
             if probs:
                 sig = "pipeline:" + re.sub(r"[^a-z]+", "-", probs[0].lower())[:40]
                 bbp = os.path.join(core.VERIF, "evidence", "replay", f"C20-{abs(hash(key)) % 10**8}.audio.raw")
@@ -165,6 +187,8 @@ class C20(Prop):
             src = "".join(rng.choice(alph) for _ in range(rng.randrange(1, 10)))
             dst = "" if k % 5 == 4 else "".join(rng.choice(alph) for _ in range(rng.randrange(1, 10)))
             cases.append((src, dst, rng.randrange(16), k % 2, (k // 2) % 2, rng.choice(["noise", "tone", "silence", "square"]), rng.choice([20, 20.013, 24, 30])))
+        # corpus first: witness of the open finding pipeline:false-sync-lock:repeating-payload (found by search on /repo 489c813)
+        self.pipeline(ctx, mod, dem, [("2F", "YF03", 11, 0, {"samples": 48000, "sigma_int16": 30, "seed": 381536}, "square", 20)], "corpus")
         self.pipeline(ctx, mod, dem, cases, "release")
         if not quick:
             mods, dems = self.programs(san=True)
